@@ -14,6 +14,8 @@ RULE = ('case = (strategy, create/update rate limits, workload of stores incl. n
         'an errors increment / error-log event}; counters equal the backend log; no write without a file; accepted = written + '
         'dropped + errored + still cached; non-trivial = execution with >=1 injected fault reached or >=1 dropped create; '
         'distinct = (workload, fault plan, interleaving)')
+RULE_MORE = (" Series names include '', names that are not valid tagged paths and names under CARBON_METRIC_PREFIX; 'lists' configurations run with USE_WHITELIST and lists matching half of the series.")
+RULE = RULE + RULE_MORE
 EXHAUSTIVE = {'quick': True, 'thorough': True}
 EXHAUSTIVE_OVER = 'fault plans with <= k raises over the first n backend calls (n=8,k=2 quick; n=12,k=3 thorough) per workload'
 ASSUMPTIONS = ['in-memory backend registered through the public plugin API; ENABLE_TAGS default (tag queue only observed not to raise)',
